@@ -170,11 +170,16 @@ def raises_with_inner_guard(model: Model, f: Func):
     out = []
 
     def rec(stmts, chain_tokens):
+        from ..flow import _always_abrupt
+        clauses = set()       # tests of earlier guard clauses of this block (`if c: return/raise ...`): what follows runs under their negation,
+        #                       exactly like the else-part of an if/elif chain
         for s in stmts:
             if isinstance(s, ast.Raise):
-                out.append((s, rules.raise_type(model, f, s), set(chain_tokens)))
+                out.append((s, rules.raise_type(model, f, s), set(chain_tokens) | clauses))
             elif isinstance(s, ast.If):
-                tk = tokens(s.test)
+                tk = tokens(s.test) | clauses
+                if _always_abrupt(s.body) and not s.orelse:
+                    clauses = clauses | tokens(s.test)
                 rec(s.body, tk)
                 # an elif/else continues the chain: its guard is the negation of all earlier tests
                 if len(s.orelse) == 1 and isinstance(s.orelse[0], ast.If):
@@ -466,7 +471,7 @@ def check(model: Model, tier: str):
     obs += rules.rule_unraised(model, live)
     obs += rules.rule_vacuous(model, live)
     obs += rules.rule_typecmp(model, live)
-    obs += rule_raise_table(model)
+    table = rule_raise_table(model)
     obs += rule_axis_range(model)
     pub = common.public_entry_points(model)
     pubset = {f.qual for f in pub}
@@ -483,6 +488,21 @@ def check(model: Model, tier: str):
         from ..e5 import obligations as e5ob
     except ImportError:
         e5ob = None
-    if e5ob is not None:
-        obs += e5ob.unification_obligations(model, tier)
+    uni = e5ob.unification_obligations(model, tier) if e5ob is not None else []
+    obs += uni
+    # Size-compatibility entries of the raise table (ShapeMismatch / RankMismatch) are DECIDED for the functions that have E5 scenarios:
+    # there every identification of two operand sizes needs a fact established by a guard on the path (E5-UNIFY), compatible operands must
+    # be entailed on returning paths (compat) and incompatible kinds must raise (E5-RAISE).  Where the table cannot find "one raise per
+    # entry" in such a function - guards merged into one test, moved into a helper with other parameter names - it reports INFO.
+    by_func = {}
+    for o in uni:
+        by_func.setdefault(o.key.split(":", 1)[0], []).append(o)
+    for o in table:
+        if o.status in (VIOLATED, ERROR) and ("ShapeMismatch" in o.construct or "RankMismatch" in o.construct):
+            fn = o.key.split(":RAISE-TABLE:", 1)[0]
+            sem = by_func.get(fn, []) + by_func.get("torchtt." + fn, [])
+            if sem and not any(x.status in (VIOLATED, ERROR) for x in sem) and any(x.rule == "E5-UNIFY" for x in sem):
+                o.status = INFO
+                o.detail = "structural reading inconclusive (size compatibility of this function is decided by evaluation: E5-UNIFY / compat / E5-RAISE): " + o.detail
+    obs += table
     return obs, {"functions": sorted(f.short for f in live)}
